@@ -15,7 +15,6 @@
 
 #define HDRLEN	512
 static SF_PRIVATE g_psf ;
-static unsigned char g_hdr [HDRLEN] ;
 
 int
 main (void)
@@ -34,7 +33,11 @@ main (void)
 	VASSUME (nd_start <= nd_flen) ;
 	mf [0].len = nd_flen ;
 	mf [0].pos = 0 ;
-	verif_pre_open (psf, &si, SFM_READ, 0, g_hdr, HDRLEN) ;
+	/* the header cache is a heap block as psf_allocate () makes it: the parsers may grow it (psf_bump_header_allocation -> realloc) */
+	{	unsigned char *hdr = calloc (1, HDRLEN) ;
+		VASSUME (hdr != NULL) ;
+		verif_pre_open (psf, &si, SFM_READ, 0, hdr, HDRLEN) ;
+	}
 	psf->container_data = calloc (1, sizeof (WAVLIKE_PRIVATE)) ;
 	VASSUME (psf->container_data != NULL) ;
 	psf->sf.format = SF_FORMAT_WAV ;
